@@ -29,37 +29,81 @@ func init() {
 
 const measuredT = "service/metrics.measuredConn"
 
-// relayFns: functions that contain a non-discard io.Copy and a `go` literal with another one (the two relay directions).
-func relayFns(c *Ctx) []*ssa.Function {
-	var out []*ssa.Function
+// relay is a function that runs two copy directions: one in a goroutine it starts, one synchronously.
+type relay struct {
+	root   *ssa.Function
+	dirs   []*Region // one region per direction: rooted at the goroutine target(s) and at the relay function itself
+	copies map[*Region][]*ssa.Call
+}
+
+func isRelayCopy(ins ssa.Instruction) (*ssa.Call, bool) {
+	call, ok := ins.(*ssa.Call)
+	if !ok || eng.CalleeName(&call.Call) != "io.Copy" || isDiscard(call.Call.Args[0]) {
+		return nil, false
+	}
+	return call, true
+}
+
+func findRelays(c *Ctx) []*relay {
+	var out []*relay
+	stop := func(f *ssa.Function) bool { return eng.PkgPathOf(f) != eng.Mod+"/service" }
 	for _, f := range c.P.FnsIn("service") {
-		if f.Parent() != nil {
+		if f.Parent() != nil || c.P.IsTestSupport(f) {
 			continue
 		}
-		own, lit := false, false
+		var gos []*ssa.Go
 		for _, cl := range eng.Calls(f) {
-			if call, ok := cl.(*ssa.Call); ok && eng.CalleeName(&call.Call) == "io.Copy" && !isDiscard(call.Call.Args[0]) {
-				own = true
+			if g, ok := cl.(*ssa.Go); ok {
+				gos = append(gos, g)
 			}
 		}
-		for _, a := range f.AnonFuncs {
-			for _, cl := range eng.Calls(a) {
-				if call, ok := cl.(*ssa.Call); ok && eng.CalleeName(&call.Call) == "io.Copy" && !isDiscard(call.Call.Args[0]) {
-					lit = true
+		if len(gos) == 0 {
+			continue
+		}
+		r := &relay{root: f, copies: map[*Region][]*ssa.Call{}}
+		syncReg := c.NewRegion(f, 2, stop)
+		collect := func(reg *Region) {
+			for _, cl := range reg.Calls() {
+				if call, ok := isRelayCopy(cl.(ssa.Instruction)); ok {
+					r.copies[reg] = append(r.copies[reg], call)
 				}
 			}
 		}
-		if own && lit {
-			out = append(out, f)
+		collect(syncReg)
+		async := 0
+		for _, g := range gos {
+			for _, t := range c.P.Callees(g) {
+				if !c.P.InRepo(t) {
+					continue
+				}
+				reg := c.NewRegion(t, 2, stop)
+				collect(reg)
+				if len(r.copies[reg]) > 0 {
+					async++
+					r.dirs = append(r.dirs, reg)
+				}
+			}
+		}
+		if async > 0 && len(r.copies[syncReg]) > 0 {
+			r.dirs = append(r.dirs, syncReg)
+			out = append(out, r)
 		}
 	}
 	return out
 }
 
+func relayFns(c *Ctx) []*ssa.Function {
+	var out []*ssa.Function
+	for _, r := range findRelays(c) {
+		out = append(out, r.root)
+	}
+	return out
+}
+
 func sameOrigin(c *Ctx, a, b ssa.Value) bool {
-	for _, x := range c.P.Origins(a, eng.Plain) {
+	for _, x := range c.P.Origins(a, deepF) {
 		x = baseRoot(x)
-		for _, y := range c.P.Origins(b, eng.Plain) {
+		for _, y := range c.P.Origins(b, deepF) {
 			if x == baseRoot(y) {
 				return true
 			}
@@ -78,37 +122,33 @@ func runC02(c *Ctx) {
 // C02.HALFCLOSE
 func ruleHalfClose(c *Ctx) {
 	p := c.P
-	rfs := relayFns(c)
-	if !c.Floor("HALFCLOSE", "relay functions (two copy directions)", len(rfs), 1) {
+	rs := findRelays(c)
+	if !c.Floor("HALFCLOSE", "relay functions (two copy directions)", len(rs), 1) {
 		return
 	}
-	for _, rf := range rfs {
+	for _, r := range rs {
 		nCopy := 0
-		for _, g := range eng.Family(rf) {
-			var copies []*ssa.Call
-			for _, cl := range eng.Calls(g) {
-				if call, ok := cl.(*ssa.Call); ok && eng.CalleeName(&call.Call) == "io.Copy" && !isDiscard(call.Call.Args[0]) {
-					copies = append(copies, call)
-				}
-			}
+		for _, reg := range r.dirs {
+			copies := r.copies[reg]
 			for _, cp := range copies {
 				nCopy++
 				dst, src := cp.Call.Args[0], cp.Call.Args[1]
+				g := cp.Parent()
 				isCW := func(ins ssa.Instruction) bool {
 					cl, ok := ins.(*ssa.Call)
 					return ok && eng.MethodName(&cl.Call) == "CloseWrite" && sameOrigin(c, eng.Receiver(&cl.Call), dst)
 				}
-				ok, bad := eng.MustPass(eng.After(cp), isCW)
-				c.CheckAt("HALFCLOSE", short(g)+":copy-then-CloseWrite-of-its-destination", cp, ok, fmt.Sprintf("after this copy the function can finish at %s without CloseWrite on the copy's destination: end-of-stream of this direction is not propagated", p.IPos(bad)))
+				ok, bad := reg.MustPassUp(eng.After(cp), isCW)
+				c.CheckAt("HALFCLOSE", short(g)+":copy-then-CloseWrite-of-its-destination", cp, ok, fmt.Sprintf("after this copy the direction can finish at %s without CloseWrite on the copy's destination: end-of-stream of this direction is not propagated", p.IPos(bad)))
 				isCR := func(ins ssa.Instruction) bool {
 					cl, ok := ins.(*ssa.Call)
 					return ok && eng.MethodName(&cl.Call) == "CloseRead" && sameOrigin(c, eng.Receiver(&cl.Call), src)
 				}
-				ok2, _ := eng.MustPass(eng.After(cp), isCR)
+				ok2, _ := reg.MustPassUp(eng.After(cp), isCR)
 				c.CheckAt("HALFCLOSE", short(g)+":copy-then-CloseRead-of-its-source", cp, ok2, "after this copy the read side of its source is not closed on every path")
 			}
-			// every CloseWrite in g is on the destination of a copy of g that dominates it; every CloseRead on a source
-			for _, cl := range eng.Calls(g) {
+			// every CloseWrite / CloseRead in this direction is on the destination / source of a copy of the same direction that has completed
+			for _, cl := range reg.Calls() {
 				call, ok := cl.(*ssa.Call)
 				if !ok {
 					continue
@@ -117,24 +157,26 @@ func ruleHalfClose(c *Ctx) {
 				if m != "CloseWrite" && m != "CloseRead" {
 					continue
 				}
-				good := false
-				for _, cp := range copies {
+				isOwnCopy := func(ins ssa.Instruction) bool {
+					cp, ok := isRelayCopy(ins)
+					if !ok {
+						return false
+					}
 					side := cp.Call.Args[0]
 					if m == "CloseRead" {
 						side = cp.Call.Args[1]
 					}
-					if eng.Dominates(cp, call) && sameOrigin(c, eng.Receiver(&call.Call), side) {
-						good = true
-					}
+					return sameOrigin(c, eng.Receiver(&call.Call), side)
 				}
+				good, _ := reg.BeforeDeep(isOwnCopy, func(ins ssa.Instruction) bool { return ins == ssa.Instruction(call) })
 				what := "destination"
 				if m == "CloseRead" {
 					what = "source"
 				}
-				c.CheckAt("HALFCLOSE", short(g)+":"+m+"-only-after-own-copy", call, good, m+" is applied to a connection that is not the "+what+" of a copy completed in this function: the other direction, still flowing in the other goroutine, is cut (e.g. a FIN reaches the target before all client data)")
+				c.CheckAt("HALFCLOSE", short(call.Parent())+":"+m+"-only-after-own-copy", call, good, m+" is applied to a connection that is not the "+what+" of a copy completed in this direction: the other direction, still flowing in the other goroutine, is cut (e.g. a FIN reaches the target before all client data)")
 			}
 		}
-		c.Floor("HALFCLOSE", "relay copies in "+short(rf), nCopy, 2)
+		c.Floor("HALFCLOSE", "relay copies in "+short(r.root), nCopy, 2)
 	}
 }
 
@@ -257,28 +299,47 @@ func ruleClearDeadline(c *Ctx) {
 	c.Floor("DEADLINE", "relay calls in the handler", n, 1)
 }
 
-// PASSTHRU (shared by C02 and C15)
+// PASSTHRU (shared by C02 and C15): wrapper transparency of the measuring connection, over each method's helper region.
 func rulePassthru(c *Ctx, rule string) {
 	p := c.P
 	want := map[string]string{"Read": "readCount", "WriteTo": "readCount", "Write": "writeCount", "ReadFrom": "writeCount"}
+	// counter fields by role: the two *int64 fields; which is which is given by MeasureConn's parameter order (sent, received)
 	n := 0
+	// every delegated call of the four methods (used to accept shared counting helpers)
+	var allDelegates []*ssa.Call
+	for _, f := range p.FnsIn("service/metrics") {
+		for _, cl := range eng.Calls(f) {
+			call, ok := cl.(*ssa.Call)
+			if !ok {
+				continue
+			}
+			emb := func(v ssa.Value) bool {
+				return p.AnyFrom(v, deepF, func(x ssa.Value) bool { return eng.IsFieldLoad(x, measuredT, "StreamConn") })
+			}
+			if _, isM := want[eng.MethodName(&call.Call)]; isM && emb(eng.Receiver(&call.Call)) {
+				allDelegates = append(allDelegates, call)
+			}
+			if eng.CalleeName(&call.Call) == "io.Copy" && (emb(call.Call.Args[0]) || emb(call.Call.Args[1])) {
+				allDelegates = append(allDelegates, call)
+			}
+		}
+	}
 	for _, f := range p.FnsIn("service/metrics") {
 		if f.Signature.Recv() == nil || eng.TypeName(f.Signature.Recv().Type()) != measuredT || f.Parent() != nil {
 			continue
 		}
 		counter, ok := want[f.Name()]
 		if !ok {
-			// any other hand-written method must not touch counters
 			continue
 		}
 		n++
 		key := short(f)
-		// delegate calls: method of the same name on the embedded conn (or an interface view of it), or io.Copy involving the embedded conn
+		reg := c.NewRegion(f, 3, func(h *ssa.Function) bool { return eng.PkgPathOf(h) != eng.Mod+"/service/metrics" })
 		isEmbedded := func(v ssa.Value) bool {
-			return p.AnyFrom(v, eng.Plain, func(x ssa.Value) bool { return eng.IsFieldLoad(x, measuredT, "StreamConn") })
+			return p.AnyFrom(v, deepF, func(x ssa.Value) bool { return eng.IsFieldLoad(x, measuredT, "StreamConn") })
 		}
 		var delegates []*ssa.Call
-		for _, cl := range eng.Calls(f) {
+		for _, cl := range reg.Calls() {
 			call, ok := cl.(*ssa.Call)
 			if !ok {
 				continue
@@ -291,7 +352,6 @@ func rulePassthru(c *Ctx, rule string) {
 			}
 		}
 		c.Check(rule, key+":delegates", p.Pos(f.Pos()), len(delegates) >= 1, "the wrapper method does not delegate to the wrapped connection")
-		// at most one delegate per path
 		isD := func(ins ssa.Instruction) bool {
 			for _, d := range delegates {
 				if ins == ssa.Instruction(d) {
@@ -300,7 +360,8 @@ func rulePassthru(c *Ctx, rule string) {
 			}
 			return false
 		}
-		mn, mx, _ := eng.CountOnPaths(eng.Point{B: f.Blocks[0]}, isD, nil)
+		mn, _, _ := eng.CountOnPaths(eng.Point{B: f.Blocks[0]}, reg.Must(isD, nil), nil)
+		_, mx, _ := eng.CountOnPaths(eng.Point{B: f.Blocks[0]}, reg.May(isD), nil)
 		c.Check(rule, key+":exactly-one-delegated-call-per-path", p.Pos(f.Pos()), mn == 1 && mx == 1, fmt.Sprintf("the wrapped operation runs %d..%d times per call", mn, mx))
 		fromD := func(idx int) func(ssa.Value) bool {
 			return func(v ssa.Value) bool {
@@ -312,64 +373,76 @@ func rulePassthru(c *Ctx, rule string) {
 				return false
 			}
 		}
-		// arguments forwarded unchanged
 		for _, d := range delegates {
 			for i, a := range d.Call.Args {
 				if isEmbedded(a) {
 					continue
 				}
-				if d.Call.IsInvoke() {
-					// Args exclude the receiver for invoke
-				} else if i == 0 && eng.MethodName(&d.Call) != "" {
+				if !d.Call.IsInvoke() && i == 0 && eng.MethodName(&d.Call) != "" {
 					continue
 				}
-				g, bad := p.AllFrom(a, eng.Plain, func(v ssa.Value) bool { _, isP := v.(*ssa.Parameter); return isP })
+				g, bad := p.AllFrom(a, deepF, func(v ssa.Value) bool {
+					pa, isP := v.(*ssa.Parameter)
+					return isP && pa.Parent() == f
+				})
 				c.CheckAt(rule, fmt.Sprintf("%s:argument#%d-forwarded-unchanged", key, i), d, g, "the delegated call does not get the caller's argument unchanged: "+valsStr(p, bad))
 			}
 		}
-		// results
 		for i, r := range eng.Returns(f) {
 			if r.Block().Comment == "recover" {
 				continue
 			}
-			g0, _ := p.AllFrom(r.Results[0], eng.Plain, fromD(0))
-			g1, _ := p.AllFrom(r.Results[1], eng.Plain, fromD(1))
+			g0, _ := p.AllFrom(r.Results[0], deepF, fromD(0))
+			g1, _ := p.AllFrom(r.Results[1], deepF, fromD(1))
 			c.CheckAt(rule, fmt.Sprintf("%s:return#%d-is-the-delegate's-result", key, i), r, g0 && g1, "the wrapper returns something other than the wrapped call's (n, err)")
 		}
-		// counter update: exactly one store per path, *c.<counter> += int64(n of delegate)
-		stores := 0
-		for _, b := range f.Blocks {
-			for _, ins := range b.Instrs {
-				st, ok := ins.(*ssa.Store)
-				if !ok {
-					continue
-				}
-				ptrIs := func(v ssa.Value, fld string) bool {
-					return p.AnyFrom(v, eng.Plain, func(x ssa.Value) bool { return eng.IsFieldLoad(x, measuredT, fld) })
-				}
-				if !ptrIs(st.Addr, "readCount") && !ptrIs(st.Addr, "writeCount") {
-					if _, isFA := st.Addr.(*ssa.FieldAddr); isFA {
+		// counter updates anywhere in the region: *recv.<counter> += int64(n of delegate)
+		ptrIs := func(v ssa.Value, fld string) bool {
+			return p.AnyFrom(v, deepF, func(x ssa.Value) bool { return eng.IsFieldLoad(x, measuredT, fld) })
+		}
+		var updates []*ssa.Store
+		reg.Instrs(func(g *ssa.Function, ins ssa.Instruction) {
+			st, ok := ins.(*ssa.Store)
+			if !ok {
+				return
+			}
+			if !ptrIs(st.Addr, "readCount") && !ptrIs(st.Addr, "writeCount") {
+				if fa, isFA := st.Addr.(*ssa.FieldAddr); isFA {
+					if t, _, _, ok := eng.FieldOf(fa); ok && t == measuredT {
 						c.CheckAt(rule, key+":no-field-writes", st, false, "the wrapper method modifies the wrapper's fields")
 					}
-					continue
 				}
-				stores++
-				c.CheckAt(rule, key+":updates-its-own-counter", st, ptrIs(st.Addr, counter), "the method updates the wrong counter (reads counted as writes or vice versa)")
-				bo, ok := st.Val.(*ssa.BinOp)
-				good := false
-				var bad []ssa.Value
-				if ok && bo.Op == token.ADD {
-					// one side is the old value, the other the delegate's count
-					for _, pair := range [][2]ssa.Value{{bo.X, bo.Y}, {bo.Y, bo.X}} {
-						if u, isU := pair[0].(*ssa.UnOp); isU && u.Op == token.MUL && ptrIs(u.X, counter) {
-							good, bad = p.AllFrom(pair[1], eng.OriginOpts{ThroughConvert: true}, fromD(0))
+				return
+			}
+			updates = append(updates, st)
+			c.CheckAt(rule, key+":updates-its-own-counter", st, ptrIs(st.Addr, counter), "the method updates the wrong counter (reads counted as writes or vice versa)")
+			bo, ok := st.Val.(*ssa.BinOp)
+			good := false
+			var bad []ssa.Value
+			if ok && bo.Op == token.ADD {
+				for _, pair := range [][2]ssa.Value{{bo.X, bo.Y}, {bo.Y, bo.X}} {
+					if u, isU := pair[0].(*ssa.UnOp); isU && u.Op == token.MUL && (ptrIs(u.X, "readCount") || ptrIs(u.X, "writeCount")) {
+						good, bad = p.AllFrom(pair[1], deepF, func(v ssa.Value) bool { return inCalls(v, allDelegates, 0) })
+						// and this method's own delegate is among the sources
+						if good && !p.AnyFrom(pair[1], deepF, fromD(0)) {
+							good = false
 						}
 					}
 				}
-				c.CheckAt(rule, key+":counter-advances-by-the-returned-count", st, good, "the counter is not advanced by exactly the count the wrapped call returned (e.g. by the requested length, or before the call): partial reads/writes are over-counted ("+valsStr(p, bad)+")")
 			}
+			c.CheckAt(rule, key+":counter-advances-by-the-returned-count", st, good, "the counter is not advanced by exactly the count the wrapped call returned (e.g. by the requested length, or before the call): partial reads/writes are over-counted ("+valsStr(p, bad)+")")
+		})
+		isU := func(ins ssa.Instruction) bool {
+			for _, u := range updates {
+				if ins == ssa.Instruction(u) {
+					return true
+				}
+			}
+			return false
 		}
-		c.Check(rule, key+":one-counter-update", p.Pos(f.Pos()), stores == 1, fmt.Sprintf("%d counter updates in the method (expected 1)", stores))
+		mn2, _, _ := eng.CountOnPaths(eng.Point{B: f.Blocks[0]}, reg.Must(isU, nil), nil)
+		_, mx2, _ := eng.CountOnPaths(eng.Point{B: f.Blocks[0]}, reg.May(isU), nil)
+		c.Check(rule, key+":one-counter-update-per-call", p.Pos(f.Pos()), mn2 == 1 && mx2 == 1, fmt.Sprintf("%d..%d counter updates per call (expected exactly 1)", mn2, mx2))
 	}
 	c.Floor(rule, "measured-connection methods", n, 4)
 	// MeasureConn wires (bytesSent → writeCount, bytesReceived → readCount)
@@ -413,14 +486,19 @@ func methodQ(name string) func(ssa.Instruction) bool {
 	}
 }
 
-// outer handler: the function that calls the auth handler and AddClosed (streamHandler.Handle)
+// outer handler: the caller of the connection handler whose region reports AddClosed (streamHandler.Handle)
 func outerHandler(c *Ctx, a *tcpAnchors) *ssa.Function {
+	memo := map[*ssa.Function]int{}
 	for _, s := range c.P.CallSitesOf(a.handler) {
-		if bodyHas(s.Fn, methodQ("AddClosed")) {
+		if bodyHas(s.Fn, methodQ("AddClosed")) || reaches(c, s.Fn, methodQ("AddClosed"), memo) {
 			return s.Fn
 		}
 	}
 	return nil
+}
+
+func outerRegion(c *Ctx, a *tcpAnchors, oh *ssa.Function) *Region {
+	return c.NewRegion(oh, 3, func(f *ssa.Function) bool { return eng.PkgPathOf(f) != eng.Mod+"/service" || f == a.handler })
 }
 
 // C15.ONCE (AddAuthenticated part shared with C17)
@@ -482,8 +560,9 @@ func ruleOnce(c *Ctx, a *tcpAnchors, rule string) {
 			okF := eng.IsFieldLoad(p.Resolve(arg), "service/metrics.ProxyMetrics", "ClientProxy")
 			after := false
 			if u, ok := p.Resolve(arg).(*ssa.UnOp); ok {
+				anyDrain := liftMust(c, func(x ssa.Instruction) bool { _, isD := isDrainCall(x); return isD }, nil)
 				for _, c2 := range eng.Calls(f) {
-					if dc, isD := isDrainCall(c2.(ssa.Instruction)); isD && eng.Dominates(dc, u) {
+					if ci, isCall := c2.(*ssa.Call); isCall && anyDrain(ci) && eng.Dominates(ci, u) {
 						after = true
 					}
 				}
@@ -531,26 +610,24 @@ func ruleOnce(c *Ctx, a *tcpAnchors, rule string) {
 		c.Undecided(rule, "anchor:outer-handler", "-", "no caller of the connection handler reports AddClosed")
 		return
 	}
-	mn, mx, _ := eng.CountOnPaths(eng.Point{B: oh.Blocks[0]}, methodQ("AddClosed"), nil)
-	c.Check(rule, short(oh)+":closed-reported-exactly-once", p.Pos(oh.Pos()), mn == 1 && mx == 1, fmt.Sprintf("AddClosed runs %d..%d times per connection (must be exactly once, whatever the outcome)", mn, mx))
+	oreg := outerRegion(c, a, oh)
+	isClosed := methodQ("AddClosed")
+	mn, _, _ := eng.CountOnPaths(eng.Point{B: oh.Blocks[0]}, liftMust(c, isClosed, nil), nil)
+	_, mx, _ := eng.CountOnPaths(eng.Point{B: oh.Blocks[0]}, liftMay(c, isClosed), nil)
+	nClosed := len(oreg.FindCalls(func(_ string, call *ssa.Call) bool { return eng.MethodName(&call.Call) == "AddClosed" }))
+	c.Check(rule, short(oh)+":closed-reported-exactly-once", p.Pos(oh.Pos()), mn == 1 && mx == 1 && nClosed == 1, fmt.Sprintf("AddClosed runs %d..%d times per connection from %d call sites (must be exactly once, whatever the outcome)", mn, mx, nClosed))
 	isClientClose := func(ins ssa.Instruction) bool {
 		cl, ok := ins.(ssa.CallInstruction)
 		return ok && eng.MethodName(cl.Common()) == "Close"
 	}
-	ok, bad := eng.MustPassBefore(eng.Point{B: oh.Blocks[0]}, methodQ("AddClosed"), isClientClose)
+	ok, bad := oreg.BeforeDeep(isClosed, isClientClose)
 	c.Check(rule, short(oh)+":closed-reported-before-the-connection-is-closed", p.Pos(oh.Pos()), ok, fmt.Sprintf("the client connection is closed at %s before AddClosed", p.IPos(bad)))
-	// the handler call precedes AddClosed
-	for _, s := range p.CallSitesOf(a.handler) {
-		if s.Fn == oh {
-			for _, b := range oh.Blocks {
-				for _, ins := range b.Instrs {
-					if methodQ("AddClosed")(ins) {
-						c.CheckAt(rule, short(oh)+":closed-after-handling", ins, eng.Dominates(s.Ins, ins), "AddClosed runs before the connection was handled")
-					}
-				}
-			}
-		}
+	isHandle := func(ins ssa.Instruction) bool {
+		cl, ok := ins.(*ssa.Call)
+		return ok && callTo(c, cl, a.handler)
 	}
+	ok3, bad3 := oreg.BeforeDeep(isHandle, isClosed)
+	c.Check(rule, short(oh)+":closed-after-handling", p.Pos(oh.Pos()), ok3, fmt.Sprintf("AddClosed can run (%s) before the connection was handled", p.IPos(bad3)))
 	// open: the service entry reports AddOpenTCPConnection at most once, exactly once on the metrics != nil edge, and passes the result on
 	for _, f := range p.FnsIn("service") {
 		if !bodyHas(f, methodQ("AddOpenTCPConnection")) || f.Signature.Recv() == nil || f.Name() == "AddOpenTCPConnection" {
@@ -599,52 +676,84 @@ func ruleStatus(c *Ctx, a *tcpAnchors) {
 	if oh == nil {
 		return
 	}
+	oreg := outerRegion(c, a, oh)
 	var hcall *ssa.Call
 	for _, s := range p.CallSitesOf(a.handler) {
 		if s.Fn == oh {
 			hcall, _ = s.Ins.(*ssa.Call)
 		}
 	}
-	for _, cl := range eng.Calls(oh) {
-		call, ok := cl.(*ssa.Call)
-		if !ok || eng.MethodName(&call.Call) != "AddClosed" {
-			continue
-		}
+	fromHandlerErr := func(v ssa.Value) bool {
+		g, _ := p.AllFrom(v, deepF, func(x ssa.Value) bool { return hcall != nil && x == ssa.Value(hcall) })
+		return g
+	}
+	for _, call := range oreg.FindCalls(func(_ string, call *ssa.Call) bool { return eng.MethodName(&call.Call) == "AddClosed" }) {
 		st := eng.Arg(&call.Call, 0)
-		good, bad := p.AllFrom(st, eng.Plain, func(v ssa.Value) bool {
+		good, bad := p.AllFrom(st, deepF, func(v ssa.Value) bool {
 			if s, ok := eng.ConstString(v); ok {
 				return s == "OK"
 			}
 			t, fl, base, ok := eng.FieldLoad(v)
-			return ok && t == "net.ConnectionError" && fl == "Status" && hcall != nil && p.Resolve(base) == ssa.Value(hcall)
+			return ok && t == "net.ConnectionError" && fl == "Status" && fromHandlerErr(base)
 		})
 		c.CheckAt("STATUS", short(oh)+":status-is-OK-or-the-handler-error's-status", call, good, "the status given to AddClosed is neither \"OK\" nor the Status of the error the handler returned: "+valsStr(p, bad))
-		// "OK" only on the nil edge
-		if ph, ok := st.(*ssa.Phi); ok && hcall != nil {
-			nilE, _ := p.NilEdges(oh, func(v ssa.Value) bool { return v == ssa.Value(hcall) })
-			for i, e := range ph.Edges {
-				if s, ok := eng.ConstString(e); ok && s == "OK" {
-					pred := ph.Block().Preds[i]
-					onNil := false
-					for ne := range nilE {
-						if ne.From == pred && ne.To == ph.Block() || ne.To == pred || ne.To.Dominates(pred) {
-							onNil = true
+		// the byte counters passed are this connection's ProxyMetrics (the struct the connections were measured into)
+		okD, _ := p.AllFrom(eng.Arg(&call.Call, 1), deepF, func(v ssa.Value) bool {
+			u, ok := v.(*ssa.UnOp)
+			if !ok || u.Op != token.MUL {
+				return false
+			}
+			g, _ := p.AllFrom(u.X, deepF, func(y ssa.Value) bool {
+				al, ok := baseRoot(y).(*ssa.Alloc)
+				return ok && eng.TypeName(al.Type()) == "service/metrics.ProxyMetrics"
+			})
+			return g
+		})
+		c.CheckAt("STATUS", short(oh)+":closed-carries-this-connection's-counters", call, okD, "AddClosed is not given this connection's own byte counters")
+	}
+	// "OK" only on the nil edge: every place in the region where the constant "OK" is chosen for the status (a phi operand or a
+	// returned constant of a status helper) lies behind the nil edge of a test on the handler's error
+	n := 0
+	for _, f := range oreg.Fns {
+		nilE, _ := p.NilEdges(f, fromHandlerErr)
+		for _, b := range f.Blocks {
+			for _, ins := range b.Instrs {
+				switch v := ins.(type) {
+				case *ssa.Phi:
+					hasStatus := false
+					for _, e := range v.Edges {
+						if _, fl, _, ok := eng.FieldLoad(e); ok && fl == "Status" {
+							hasStatus = true
 						}
 					}
-					c.CheckAt("STATUS", short(oh)+":OK-only-when-no-error", call, onNil, "\"OK\" is reported on a path where the handler returned an error")
+					if !hasStatus {
+						continue
+					}
+					for i, e := range v.Edges {
+						if sv, ok := eng.ConstString(e); ok && sv == "OK" {
+							n++
+							pred := b.Preds[i]
+							onNil := false
+							for ne := range nilE {
+								if (ne.From == pred && ne.To == b) || ne.To == pred || ne.To.Dominates(pred) {
+									onNil = true
+								}
+							}
+							c.CheckAt("STATUS", short(f)+":OK-only-when-no-error", v, onNil, "\"OK\" is reported on a path where the handler returned an error")
+						}
+					}
+				case *ssa.Return:
+					for _, rv := range v.Results {
+						if sv, ok := eng.ConstString(rv); ok && sv == "OK" && f != oh {
+							n++
+							c.CheckAt("STATUS", short(f)+":OK-only-when-no-error", v, len(nilE) > 0 && eng.Cut(f, b, nilE), "\"OK\" is returned as status on a path where the error is not known to be nil")
+						}
+					}
 				}
 			}
 		}
-		// the byte counters passed are this connection's ProxyMetrics (the struct the conns were measured into)
-		data := eng.Arg(&call.Call, 1)
-		okD := false
-		if u, ok := data.(*ssa.UnOp); ok && u.Op == token.MUL {
-			if al, ok := u.X.(*ssa.Alloc); ok && eng.TypeName(al.Type()) == "service/metrics.ProxyMetrics" {
-				okD = true
-			}
-		}
-		c.CheckAt("STATUS", short(oh)+":closed-carries-this-connection's-counters", call, okD, "AddClosed is not given this connection's own byte counters")
 	}
+	c.Floor("STATUS", "places where the OK status is chosen", n, 1)
 }
 
 // C15.WIRING
